@@ -63,7 +63,7 @@ def World.drain (w : World) (id : Nat) (evs : List Event) (r : EpRec) : World ×
   evs.reverse.foldl (fun (acc : World × EpRec) ev =>
     let (w, r) := acc
     match ev with
-    | .out bytes => (w.say s!"out {id} {bytes.length} {hex64 (fnv64 bytes)} {(bytes.getLast?.getD 0).toNat}", { r with outbox := r.outbox.push bytes })
+    | .out bytes => (w.say s!"out {id} {bytes.length} {hex64 (fnv64 bytes)} {(bytes.getLast?.getD 0).toNat} {(bytes.head?.getD 0).toNat}", { r with outbox := r.outbox.push bytes })
     | .recv bs =>
       let w := w.say (s!"recv {id} {bs.length}" ++ String.join (bs.map showBunch))
       let w := if bs.length > 1 then
